@@ -665,7 +665,7 @@ pub fn record(out_path: &str, client_bin: &str, seed: u64, tier: &str) {
         runs += 1;
     }
     // (3) C01: replays within one multi-request run, replays across runs, truncations, random mutations, full re-signing
-    let n_misc = if thorough { 900 } else { 160 };
+    let n_misc = if thorough { 400 } else { 160 };
     for k in 0..n_misc {
         let v = if k % 2 == 0 { Proto::Google } else { Proto::Ietf };
         let keyopt = ["hex", "b64", "none"][(k / 2) % 3];
